@@ -234,3 +234,44 @@ contract(TS + "update_time.py", "update_time",
          ],
          assigns=["clock_struct.time_step_counter", "clock_struct.season_counter", "clock_struct.step_start_time", "clock_struct.step_end_time", "init_cond.**"],
          props=("C07", "C01", "C09", "C16"))
+
+# ----------------------------------------------------------------------------- core.py: the run loop over an abstract step (C09)
+CORE = "aquacrop/core.py"
+declare_fields("AquaCropModel", default="Real", _clock_struct=OBJ("ClockStruct"), _init_cond=OBJ("InitialCondition"), _param_struct=OBJ("ParamStruct"),
+               _outputs=OBJ("Output"), crop=OBJ("Crop"), ghost_steps="Int",
+               __steps_are_finished="Bool", __has_model_executed="Bool", __has_model_finished="Bool")
+
+contract(CORE, "AquaCropModel._perform_timestep",
+         params=dict(self=OBJ("AquaCropModel")),
+         returns=[("clk", ("Expr", "self._clock_struct")), ("cond", ("Expr", "self._init_cond")), ("ps", ("Expr", "self._param_struct")), ("outs", ("Expr", "self._outputs"))],
+         ensures=[("C09.step_counts", "self.ghost_steps == old(self.ghost_steps) + 1"),
+                  ("C09.step_finished_is_trajectory", "self._clock_struct.model_is_finished == fin(self.ghost_steps)")],
+         assigns=["self.ghost_steps", "self._clock_struct.model_is_finished"],
+         trusted=True,
+         note="ABSTRACT step (assumed): one call performs exactly one time step of the deterministic trajectory; ghost_steps counts the steps performed "
+              "since initialisation and fin(k) says whether the model is finished after k steps. That the step reads and writes nothing but the model's "
+              "own state (no clock, environment, randomness) is the frame/determinism assumption shared with C10 (bounded check).",
+         props=("C09",))
+
+_G0 = "old(self.ghost_steps)"
+contract(CORE, "AquaCropModel.run_model",
+         params=dict(self=OBJ("AquaCropModel"), num_steps="Int", till_termination="Bool", initialize_model="Bool", process_outputs="Bool"),
+         ghost=dict(N="Int"),
+         cases=[dict(initialize_model=False)],
+         requires=["self.ghost_steps >= 0", "self.ghost_steps < N", "fin(N)", "forall(j, 0, N, not fin(j))",
+                   "self._clock_struct.model_is_finished == fin(self.ghost_steps)"],
+         returns=[("ok", "Bool")],
+         ensures=[
+             ("C09.run_to_termination", "implies(till_termination, self.ghost_steps == N and self.__has_model_finished and self._clock_struct.model_is_finished)"),
+             ("C09.run_steps_advance", "implies(not till_termination, self.ghost_steps == min(%s + num_steps, N))" % _G0),
+             ("C09.run_status", "implies(not till_termination, self.__has_model_finished == (self.ghost_steps == N) and self.__has_model_executed)"),
+             ("C09.run_clock_status", "self._clock_struct.model_is_finished == fin(self.ghost_steps)"),
+         ],
+         loops={
+             "L1": dict(invariant=[("traj", "%s <= self.ghost_steps and self.ghost_steps <= N and self._clock_struct.model_is_finished == fin(self.ghost_steps)" % _G0)],
+                        decreases="N - self.ghost_steps"),
+             "L2": dict(invariant=[("traj", "self.ghost_steps == %s + i and self.ghost_steps < N and self._clock_struct.model_is_finished == fin(self.ghost_steps)" % _G0)]),
+         },
+         assigns=["self.**"],
+         options=dict(allowed_raises=("ValueError",)),
+         props=("C09", "C07", "C16"))
